@@ -275,12 +275,69 @@ class VM:
             yield st, "next", None, line
             return
         if isinstance(s, ast.Try):
-            # model: the body runs; handlers are alternative continuations from the start of the body
-            # (sound enough for summaries only if neither touches the VM state -- otherwise undecided)
-            if self._touches_vm(s):
-                raise Unrecognised(f"try statement around VM-state operations at line {line}")
-            for st1, flow, val, l2 in self._block(s.body + s.orelse + s.finalbody, st, frame):
-                yield st1, flow, val, l2
+            if not self._touches_vm(s):
+                # pure local computation: body, then (alternatively) each handler from the entry state
+                st_entry = st.clone()
+                for st1, flow, val, l2 in self._block(s.body + s.orelse + s.finalbody, st, frame):
+                    yield st1, flow, val, l2
+                for h in s.handlers:
+                    self._guard_paths()
+                    sth = st_entry.clone()
+                    sth.conds.append(f"except {src(h.type) if h.type is not None else ''}@{h.lineno}")
+                    if h.name:
+                        sth.env[h.name] = Unknown(why="exception")
+                    yield from self._block(h.body + s.finalbody, sth, frame)
+                return
+            # the try body touches VM state.  An exception can only be raised by a call that may raise
+            # (anything but the stack/memo/module-body primitives, AST constructors and a few total
+            # builtins); handlers are explored from the state *before* each top-level body statement
+            # that contains such a call (statement granularity).
+            def may_raise(stmt: ast.AST) -> bool:
+                for n in ast.walk(stmt):
+                    if isinstance(n, ast.Call):
+                        d = dotted(n.func) or ""
+                        last = d.split(".")[-1]
+                        if d.startswith("ast.") or d in ("make_constant", "isinstance", "len", "hasattr", "bool", "id", "type", "MarkObject"):
+                            continue
+                        if isinstance(n.func, ast.Attribute) and self._mentions_vm(n.func.value) and last in ("append", "push"):
+                            continue
+                        return True
+                    if isinstance(n, ast.Subscript) and not isinstance(n.ctx, ast.Store):
+                        return True
+                return False
+
+            handlers_raise = all(h.body and isinstance(h.body[-1], ast.Raise) and not self._touches_vm(h) for h in s.handlers)
+            entry_points: List[State] = []
+            cur: List[Tuple[State, str, Optional[Val], int]] = [(st, "next", None, line)]
+            for stmt in s.body:
+                nxt = []
+                for st_c, flow, val, l2 in cur:
+                    if flow != "next":
+                        nxt.append((st_c, flow, val, l2))
+                        continue
+                    if may_raise(stmt) and not handlers_raise:
+                        entry_points.append(st_c.clone())
+                    nxt.extend(self._stmt(stmt, st_c, frame))
+                cur = nxt
+            for st1, flow, val, l2 in cur:
+                if flow == "next":
+                    yield from self._block(s.orelse + s.finalbody, st1, frame)
+                elif flow == "raise" and not handlers_raise and s.handlers:
+                    # an explicit raise inside the body may be caught: continue in the handlers
+                    st1.raised = None
+                    entry_points.append(st1)
+                else:
+                    yield st1, flow, val, l2
+            if handlers_raise:
+                return
+            for sth0 in entry_points:
+                for h in s.handlers:
+                    self._guard_paths()
+                    sth = sth0.clone()
+                    sth.conds.append(f"except {src(h.type) if h.type is not None else ''}@{h.lineno}")
+                    if h.name:
+                        sth.env[h.name] = Unknown(why="exception")
+                    yield from self._block(h.body + s.finalbody, sth, frame)
             return
         if isinstance(s, ast.With):
             if self._touches_vm(s):
